@@ -1,6 +1,7 @@
 package main
 
 import (
+	"runtime/debug"
 	"encoding/json"
 	"fmt"
 	"go/types"
@@ -456,6 +457,9 @@ func (ex *Explorer) runPath(w *Worker, prefix []int) (in *Interp, res *PathResul
 			// engine bug: report as unsupported with the message, never as pass
 			res.Kind = "unsupported"
 			res.Msg = fmt.Sprintf("engine error: %v", r)
+			if os.Getenv("GOSYM_STACK") != "" {
+				fmt.Fprintf(os.Stderr, "engine error: %v\n%s\n", r, debug.Stack())
+			}
 			if os.Getenv("GOSYM_DEBUG") != "" {
 				panic(r)
 			}
